@@ -33,6 +33,14 @@ def run_seed(base, prop, i):
 def load_prop(prop):
     return importlib.import_module("props." + prop.lower())
 
+def make_runner(mod):
+    """what executes a plan: one zygote of the property's build variant, or the property's own composite runner (C20: several configurations per plan)"""
+    if hasattr(mod, "Runner"): return mod.Runner()
+    return simdrv.Zygote(getattr(mod, "VARIANT", "asan"))
+
+def build_all(mod):
+    for v in getattr(mod, "VARIANTS", [getattr(mod, "VARIANT", "asan")]): build(v)
+
 def build(variant="asan", quiet=True):
     r = subprocess.run([sys.executable, os.path.join(HERE, "build.py"), "--variant", variant] + (["--quiet"] if quiet else []),
                        stdout=subprocess.PIPE, stderr=subprocess.PIPE, text=True)
@@ -78,7 +86,7 @@ _TIER = "quick"
 def _winit(prop, tier, variant):
     global _Z, _MOD, _TIER
     _MOD = load_prop(prop); _TIER = tier
-    _Z = simdrv.Zygote(variant)
+    _Z = make_runner(_MOD)
 
 def classify_death(r):
     """a run that did not finish: what kind of event was it"""
@@ -275,7 +283,7 @@ def do_run(a):
     t_start = time.time()
     mod = load_prop(prop)
     variant = getattr(mod, "VARIANT", "asan")
-    build(variant)
+    build_all(mod)
     t_built = time.time()
     known = load_known(prop)
     workers = a.workers or min(16, os.cpu_count() or 4)
@@ -287,7 +295,7 @@ def do_run(a):
     sim_fail = []
     # replay the listed known findings of this property first
     known_lines = []
-    z0 = simdrv.Zygote(variant)
+    z0 = make_runner(mod)
     for k in known:
         rp = os.path.join(VERIF, k["replay"])
         try:
@@ -355,7 +363,7 @@ def do_run(a):
         print("SIMULATOR-FAILURE: %s seed=%d: %s" % (v.get("class"), out["seed"], str(v.get("msg"))[:2000]))
         rc = 2
     if new_viols and rc == 0:
-        zg = simdrv.Zygote(variant)
+        zg = make_runner(mod)
         seen_classes = set()
         for nv in new_viols:
             v = nv["v"]; plan = nv["plan"]
@@ -418,6 +426,7 @@ def write_evidence(mod, prop, tier, seed, ev, wall, nviol, build_s, known, worke
                         "stub": ["kernel VFS (simfs: files, dirs, modes, fcntl locks, readdir order)", "RNG (seeded RAND_METHOD)", "scheduler / process boundary (parked threads, symbol-renamed library copies)", "time(), getpid(), syslog(), exit()"]},
         "workers": workers, "build_s": round(build_s, 1),
     }
+    if hasattr(mod, "COMPONENTS"): cov["components"] = mod.COMPONENTS
     doc = {"property_id": prop, "tier": tier, "seed": seed, "level": mod.LEVEL, "coverage": cov,
            "assumptions": getattr(mod, "ASSUMPTIONS", []) + ["simfs models the POSIX semantics the library relies on (checked by the stub-fidelity self-test)", "process death loses only user-space buffers (the library never calls fsync; power loss is out of scope)"],
            "wall_s": round(wall, 2), "violations": nviol}
@@ -429,8 +438,8 @@ def do_replay(a):
     prop = doc["property"]
     mod = load_prop(prop)
     if not a.nobuild:
-        build(doc.get("variant", "asan"))
-    z = simdrv.Zygote(doc.get("variant", "asan"))
+        build_all(mod)
+    z = make_runner(mod)
     want = vclass(doc["violation"])
     r = z.run(doc["plan"])
     viols, _ = eval_run(mod, doc["plan"], r)
@@ -451,8 +460,8 @@ def do_replay(a):
 def do_mkknown(a):
     """development aid: reproduce seed -> minimise -> write known/<id>.json (the file is committed; never written by a check run)"""
     prop = a.prop.upper(); mod = load_prop(prop)
-    build(getattr(mod, "VARIANT", "asan"))
-    z = simdrv.Zygote(getattr(mod, "VARIANT", "asan"))
+    build_all(mod)
+    z = make_runner(mod)
     plan = None
     for i in range(a.maxindex):
         if run_seed(int(os.environ.get("VERIF_SEED", "1")), prop, i) == a.seed:
